@@ -517,6 +517,9 @@ class AIOKafkaConsumer:
             await self._coordinator.close()
         if self._fetcher:
             await self._fetcher.close()
+            # Calls still parked until the next assignment (a rebalance was in
+            # progress or the subscription was dropped) would never be woken
+            self._subscription.abort_waiters(ConsumerStoppedError())
         await self._client.close()
         log.debug("The KafkaConsumer has closed.")
 
